@@ -3,11 +3,13 @@ package props
 import (
 	"fmt"
 	"strings"
+	"sync"
 
 	"verifmc/engine"
 
 	plush "github.com/gobuffalo/plush/v5"
 	"github.com/gobuffalo/plush/v5/parser"
+	"github.com/gobuffalo/plush/v5/vtick"
 )
 
 // C03 — parsing is total.
@@ -130,7 +132,7 @@ func init() {
 		ID: "C03",
 		Shards: func(th bool) []string {
 			var s []string
-			s = append(s, "seq:-")
+			s = append(s, "seq:-", "flat", "concurrent")
 			for i := range c03Vocab {
 				s = append(s, fmt.Sprintf("seq:%d", i))
 			}
@@ -172,6 +174,73 @@ var c03Heads = []string{"a", "a.b", "f()", "[1, 2]", `{"k": 1}`, `"s"`, "1", "(a
 func c03Run(t *engine.T, shard string) {
 	kind, arg, _ := strings.Cut(shard, ":")
 	switch kind {
+	case "flat":
+		// long inputs without nesting: the work (and the stack) Parse needs must not grow with the NUMBER of items
+		// in a way that ends the process - millions of comment lines, tags, elements, bytes
+		rep := strings.Repeat
+		for _, c := range []struct{ name, src string }{
+			{"5M empty comment lines in one tag", "<% " + rep("#\n", 5000000) + " %>"},
+			{"3M comment lines with text, CRLF", "<% let a = 1 " + rep("# c\r\n", 3000000) + " %><%= a %>"},
+			{"2M comment lines in an output tag", "<%= 1 " + rep("#x\n", 2000000) + " + 2 %>"},
+			{"1M comment lines ending at end of input", "<% " + rep("#\n", 1000000)},
+			{"300k empty tags", rep("<% %>", 300000)}, {"100k comment tags", rep("<%# c %>", 100000)}, {"10M bytes of text", rep("a", 10000000)}, {"5M byte string literal", `<%= "` + rep("a", 5000000) + `" %>`},
+			{"1M byte identifier", `<%= ` + rep("a", 1000000) + ` %>`}, {"100k digit number", `<%= ` + rep("1", 100000) + ` %>`}, {"300k array elements", `<%= [` + rep("1,", 300000) + `1] %>`},
+			{"100k arguments", `<%= f(` + rep("1,", 100000) + `1) %>`}, {"100k hash pairs", `<%= {` + rep(`"a": 1,`, 100000) + `"b": 2} %>`}, {"100k let statements in one tag", `<% ` + rep("let a = 1\n", 100000) + ` %>`},
+			{"300k semicolons", `<% ` + rep(";", 300000) + ` %>`}, {"50k else-if branches", `<%= if (false) { %>a<% }` + rep(` else if (false) { %>b<% }`, 50000) + ` %>`}, {"1M escaped openers", rep(`\<%`, 1000000)},
+			{"1M newlines in a tag", "<% " + rep("\n", 1000000) + " %>"}, {"1M blanks in a tag", "<%=" + rep(" ", 1000000) + "1 %>"}, {"200k unterminated openers", rep("<%", 200000)}, {"200k closers", rep("%>", 200000)},
+		} {
+			c := c
+			t.Case("flat "+c.name, true, func() (string, *engine.Fail) {
+				vtick.Reset(1 << 40)
+				tm, err := plush.Parse(c.src)
+				if err == nil && tm == nil {
+					return "", engine.Failf("mismatch", "Parse returned (nil, nil)")
+				}
+				if err != nil {
+					return "error", nil
+				}
+				return "ok", nil
+			})
+		}
+	case "concurrent":
+		// Parse is also total when several goroutines parse at the same time with the template cache on (free-running,
+		// a fixed amount of work: a crash of the process is the failure)
+		t.Case("concurrent Parse of distinct templates, cache on", true, func() (string, *engine.Fail) {
+			vtick.Reset(vtick.Off)
+			plush.VerifCacheReset()
+			plush.CacheEnabled = true
+			defer func() { plush.CacheEnabled = false; plush.VerifCacheReset() }()
+			var wg sync.WaitGroup
+			bad := make([]string, 16)
+			for g := 0; g < 16; g++ {
+				g := g
+				wg.Add(1)
+				go func() {
+					defer wg.Done()
+					for i := 0; i < 4000; i++ {
+						// a text that is cached already, then one nobody has parsed before
+						if tm, err := plush.Parse(`<html><%= yield %></html>`); tm == nil || err != nil {
+							bad[g] = fmt.Sprintf("Parse of a cached text returned %v / %v", tm != nil, err)
+						}
+						src := fmt.Sprintf("<%%= %d + %d %%>t%d", g, i, i%7)
+						if i%5 == 0 {
+							src = fmt.Sprintf("<%% let = %d %%>g%d", i, g) // does not parse
+						}
+						tm, err := plush.Parse(src)
+						if (err == nil) == (i%5 == 0) || (err == nil && tm == nil) {
+							bad[g] = fmt.Sprintf("Parse(%q) returned %v / %v", src, tm != nil, err)
+						}
+					}
+				}()
+			}
+			wg.Wait()
+			for _, b := range bad {
+				if b != "" {
+					return "", engine.Failf("mismatch", "%s", b)
+				}
+			}
+			return "ok", nil
+		})
 	case "postfix":
 		var first int
 		fmt.Sscan(arg, &first)
